@@ -938,6 +938,16 @@ func (fv *FnV) runLoop(st *State, li *loopInfo, label string, nodes []ast.Node, 
 	fr := fv.cur()
 	// 1. invariants hold on entry
 	fv.checkInvariants(st, li, "init", n)
+	if li.lc != nil {
+		for i, cl := range li.lc.Entries {
+			g := fv.evalClause(st, cl, li, nil)
+			lab := cl.Label
+			if lab == "" {
+				lab = fmt.Sprintf("%d", i)
+			}
+			fv.oblige(st, fmt.Sprintf("loop%s.entry[%s]", li.path, lab), "", g, n, cl)
+		}
+	}
 	// 2. havoc
 	fv.havocLoop(st, li, nodes)
 	if li.idxObj != nil && len(idxInv) > 0 {
